@@ -44,7 +44,7 @@ def generate(seed, tier):
             x = rng.random()
             if x < 0.08:
                 ops.append({'op': 'built_in_memory', 'n': rng.randrange(1000), 'edit': rng.choice(['output_value', 'append_output', 'signature', 'drop_input', 'wallet_signs_decoded',
-                                                                                            'wallet_signs_decoded'])})
+                                                                                            'wallet_signs_decoded', 'after_failed_id', 'after_failed_id'])})
             elif x < 0.45:
                 ops.append({'op': 'rewrite', 'type': rng.choice(['block', 'block', 'header', 'summary', 'tx', 'tx', 'input',
                                                                  'output', 'outref', 'evidence', 'sig', 'pubkey', 'coinbasedata',
@@ -170,6 +170,46 @@ def run_codec(script, res, trace):
                     res.violate(PROP, 'C07/id-is-not-hash-of-canonical-encoding',
                                 'a transaction decoded unsigned and then signed by the wallet reports id %s; its signed encoding hashes to %s' % (
                                     signed.hash().hex()[:16], sha256d(signed.serialize()).hex()[:16]))
+                    break
+                continue
+            if e == 'after_failed_id':
+                # id computations that fail half-way (a half-built transaction is looked at, a field does not fit its width)
+                # must not influence the id of whatever is built next
+                failed = 0
+                s0 = b0.header.summary
+                attempts = [
+                    lambda: Transaction([Input(t0.inputs[0].output_reference, None)], list(t0.outputs)).hash(),
+                    lambda: repr(Transaction(list(t0.inputs) + [Input(OutputReference(b'\x07' * 32, 2), None)], list(t0.outputs))),
+                    lambda: Transaction(list(t0.inputs), list(t0.outputs) + [Output(1 << 70, W.key(2).pk)]).hash(),
+                    lambda: BlockSummary(s0.height, s0.previous_block_hash, s0.merkle_root_hash, 1 << 40, s0.target, s0.nonce).hash(),
+                    lambda: BlockHeader(BlockSummary(s0.height, s0.previous_block_hash, s0.merkle_root_hash, s0.timestamp, s0.target, 1 << 33),
+                                        b0.header.pow_evidence).hash(),
+                ]
+                k0 = op.get('n', 0)
+                for j in range(1 + k0 % 3):
+                    try:
+                        attempts[(k0 + j) % len(attempts)]()
+                    except Exception:
+                        failed += 1
+                res.bump('probe:id_computation_failed_half_way', failed)
+                res.distinct.add('memory:after_failed_id:%d' % (k0 % len(attempts)))
+                fresh_tx = Transaction(list(t0.inputs), list(t0.outputs))
+                fresh_sum = BlockSummary(s0.height, s0.previous_block_hash, s0.merkle_root_hash, s0.timestamp + 2, s0.target, s0.nonce)
+                fresh_hdr = BlockHeader(fresh_sum, b0.header.pow_evidence)
+                fresh_blk = Block(fresh_hdr, list(b0.transactions))
+                bad = None
+                if fresh_tx.hash() != sha256d(fresh_tx.serialize()):
+                    bad = 'transaction'
+                elif fresh_sum.hash() != sha256d(fresh_sum.serialize()):
+                    bad = 'block summary'
+                elif fresh_hdr.hash() != sha256d(fresh_hdr.serialize()):
+                    bad = 'block header'
+                elif fresh_blk.hash() != sha256d(fresh_hdr.serialize()):
+                    bad = 'block'
+                if bad:
+                    res.violate(PROP, 'C07/id-is-not-hash-of-canonical-encoding',
+                                'a %s built in memory right after %d id computation(s) that failed half-way reports an id that is not the '
+                                'double SHA-256 of its encoding' % (bad, failed))
                     break
                 continue
             if e == 'output_value':
